@@ -3,6 +3,7 @@ import ALV.Model.C13
 import ALV.Model.C13Call
 import ALV.Spec.C13
 import ALV.Spec.C13Hist
+import ALV.Model.C13Thub
 import ALV.Model.C04
 import ALV.Spec.C04
 namespace ALV.Driver.C13
@@ -184,7 +185,11 @@ def handleOne (entry : String) (j : Json) : Except String Json := do
     let eager := match erbCallList st fs hz with
       | .ok vs => Json.mkObj [("values", fls vs)]
       | .error _ => Json.mkObj [("err", Json.str "ValueError")]
-    pure <| Json.mkObj [("eager", eager), ("lazy", arr erbJson (erbCallLazy st fs hz))]
+    let readJson (r : Option (Except Unit Float)) : Json := match r with
+      | none => Json.mkObj [("stop", Json.bool true)]
+      | some r => erbJson r
+    pure <| Json.mkObj [("eager", eager), ("lazy", arr erbJson (erbCallLazy st fs hz)),
+                        ("reads", arr readJson (erbLazyReads st fs hz (fs.length + 2)))]
   | "erb_constants" =>
     let n ← getNat (← field j "n")
     let r : Float × Float := gammatoneErbConstants n
@@ -262,6 +267,20 @@ def handleHist (j : Json) : Except String Json := do
     ("final", arr fls (histFinal srcs dsgs ops view)),
     ("final_spec", arr fls ((List.range srcs.length).map fun i => callerSpec srcs dsgs past i view))]
 
+/-- `thub`: one design called with Stream-valued arguments (`v1`, `v2`: the values each argument cycles; a
+number is a one-element cycle), its filter objects read by a schedule (`sched`: positions in the cascade).
+`model` = the tee-hub machine on the strategy body (raw coefficient lists), `spec` = the constant design of
+the instant's values, `wf` = the static one-reader-per-iterator check of the program -/
+def handleThub (j : Json) : Except String Json := do
+  let kind ← kindOf j
+  let v1 ← getList getFloat (← field j "v1")
+  let v2 ← getList getFloat (← field j "v2")
+  let sched ← getList getNat (← field j "sched")
+  pure <| Json.mkObj [
+    ("model", arr coefsJson (thubModel kind v1 v2 sched)),
+    ("spec", arr coefsJson (constReads kind v1 v2 [] sched)),
+    ("wf", Json.bool (wfDesign (progOf kind)))]
+
 /-- `multi`: a list of requests answered in order (Stream-valued parameters: one constant design
 per instant) -/
 def handle (entry : String) (j : Json) : Except String Json := do
@@ -273,6 +292,7 @@ def handle (entry : String) (j : Json) : Except String Json := do
       handleOne e c
     pure <| Json.mkObj [("results", Json.arr rs)]
   | "hist" => handleHist j
+  | "thub" => handleThub j
   | _ => handleOne entry j
 
 end ALV.Driver.C13
